@@ -148,7 +148,7 @@ func Run(targets []Pkg, resolve map[string]string) (*Result, error) {
 			if in.used {
 				astutil.AddImport(fset, f, SimrtPath)
 			}
-			for _, name := range []string{"sync", "time", "runtime"} {
+			for _, name := range []string{"sync", "time", "runtime", "context"} {
 				if !astutil.UsesImport(f, name) {
 					astutil.DeleteImport(fset, f, name)
 				}
@@ -321,6 +321,20 @@ func (in *inst) post(c *astutil.Cursor) bool {
 			site := in.site(n, "afterfunc")
 			n.Fun = in.rt("AfterFunc")
 			n.Args = append([]ast.Expr{site}, n.Args...)
+		case in.pkgSel(n.Fun, "reflect", "Select"):
+			site := in.site(n, "rselect")
+			n.Fun = in.rt("ReflectSelect")
+			n.Args = append([]ast.Expr{site}, n.Args...)
+		case in.reflectChanMethod(n) != "":
+			name := in.reflectChanMethod(n)
+			se := n.Fun.(*ast.SelectorExpr)
+			site := in.site(n, "r"+strings.ToLower(name))
+			n.Fun = in.rt("R" + name)
+			n.Args = append([]ast.Expr{site, se.X}, n.Args...)
+		case in.pkgSel(n.Fun, "context", "AfterFunc"):
+			site := in.site(n, "ctxafterfunc")
+			n.Fun = in.rt("CtxAfterFunc")
+			n.Args = append([]ast.Expr{site}, n.Args...)
 		case in.pkgSel(n.Fun, "runtime", "Gosched"):
 			site := in.site(n, "gosched")
 			n.Fun = in.rt("Gosched")
@@ -393,6 +407,50 @@ func (in *inst) preemptList(list []ast.Stmt) []ast.Stmt {
 	return out
 }
 
+// reflectChanMethod returns the name of the channel method called on a
+// reflect.Value (Send, Recv, TrySend, TryRecv, Close), or "".
+func (in *inst) reflectChanMethod(n *ast.CallExpr) string {
+	se, ok := n.Fun.(*ast.SelectorExpr)
+	if !ok {
+		return ""
+	}
+	switch se.Sel.Name {
+	case "Send", "Recv", "TrySend", "TryRecv", "Close":
+	default:
+		return ""
+	}
+	tv, ok := in.info.Types[se.X]
+	if !ok || tv.Type == nil {
+		return ""
+	}
+	if named, ok := tv.Type.(*types.Named); ok && named.Obj().Pkg() != nil && named.Obj().Pkg().Path() == "reflect" && named.Obj().Name() == "Value" {
+		return se.Sel.Name
+	}
+	return ""
+}
+
+// isDeclaredFunc reports whether e names a package-level function (of this or
+// another package), possibly with explicit type arguments.
+func (in *inst) isDeclaredFunc(e ast.Expr) bool {
+	switch x := e.(type) {
+	case *ast.IndexExpr:
+		return in.isDeclaredFunc(x.X)
+	case *ast.IndexListExpr:
+		return in.isDeclaredFunc(x.X)
+	case *ast.Ident:
+		f, ok := in.info.Uses[x].(*types.Func)
+		return ok && f.Type().(*types.Signature).Recv() == nil
+	case *ast.SelectorExpr:
+		if id, ok := x.X.(*ast.Ident); ok {
+			if _, isPkg := in.info.Uses[id].(*types.PkgName); isPkg {
+				f, ok := in.info.Uses[x.Sel].(*types.Func)
+				return ok && f.Type().(*types.Signature).Recv() == nil
+			}
+		}
+	}
+	return false
+}
+
 func (in *inst) goStmt(n *ast.GoStmt) ast.Stmt {
 	site := in.site(n, "go")
 	if fl, ok := n.Call.Fun.(*ast.FuncLit); ok && len(n.Call.Args) == 0 {
@@ -401,8 +459,14 @@ func (in *inst) goStmt(n *ast.GoStmt) ast.Stmt {
 	in.nsel++
 	pfx := fmt.Sprintf("_g%d_", in.nsel)
 	var stmts []ast.Stmt
-	fn := ast.NewIdent(pfx + "f")
-	stmts = append(stmts, &ast.AssignStmt{Lhs: []ast.Expr{fn}, Tok: token.DEFINE, Rhs: []ast.Expr{n.Call.Fun}})
+	var fn ast.Expr = ast.NewIdent(pfx + "f")
+	if in.isDeclaredFunc(n.Call.Fun) {
+		// a declared (possibly generic) function: nothing to evaluate at the go
+		// statement, and a generic one cannot be used without instantiation
+		fn = n.Call.Fun
+	} else {
+		stmts = append(stmts, &ast.AssignStmt{Lhs: []ast.Expr{fn}, Tok: token.DEFINE, Rhs: []ast.Expr{n.Call.Fun}})
+	}
 	var args []ast.Expr
 	for i, a := range n.Call.Args {
 		id := ast.NewIdent(fmt.Sprintf("%sa%d", pfx, i))
